@@ -151,6 +151,7 @@ func analyse(d *ast.FuncDecl, name string) fn {
 func main() {
 	dir := os.Args[1]
 	out := map[string][]fn{}
+	all := map[string]interface{}{}
 	for _, file := range []string{"parse.go", "writer.go"} {
 		af, err := parser.ParseFile(fset, filepath.Join(dir, file), nil, 0)
 		if err != nil {
@@ -174,5 +175,8 @@ func main() {
 	}
 	enc := json.NewEncoder(os.Stdout)
 	enc.SetIndent("", " ")
-	_ = enc.Encode(out)
+	all["parse"] = out["parse"]
+	all["write"] = out["write"]
+	all["decisions"] = decisions(dir)
+	_ = enc.Encode(all)
 }
